@@ -3,7 +3,7 @@
 SPECIFICATION Spec
 CONSTANTS LabelMax = 63
           Devs = {}
-          Blocks = {"ids", "rest"}
+          Blocks = {"ids", "rest", "forms"}
           Lite = FALSE
           Rich = TRUE
 INVARIANTS Checks
